@@ -133,9 +133,12 @@ func (p *Processor[K, T]) process(isNext bool) {
 
 // Processing loop.
 func (p *Processor[K, T]) processLoop() {
+	released := false
 	defer func() {
 		// Release the channel when exiting
-		<-p.processorRunningCh
+		if !released {
+			<-p.processorRunningCh
+		}
 	}()
 
 	var (
@@ -150,10 +153,15 @@ func (p *Processor[K, T]) processLoop() {
 		// Continue processing items until the queue is empty
 		p.lock.Lock()
 		r, ok = p.queue.Peek()
-		p.lock.Unlock()
 		if !ok {
+			// The queue is empty: stop. The channel is released while the lock is still held, so that an Enqueue
+			// (which starts the loop under the same lock) cannot find the loop "running" after it has decided to stop.
+			<-p.processorRunningCh
+			released = true
+			p.lock.Unlock()
 			return
 		}
+		p.lock.Unlock()
 
 		// Check if after obtaining the lock we have a stop or reset signals
 		// Do this before we create a timer
